@@ -2,7 +2,7 @@
    proofs: Proof/CumulativeP.v.  acc_seq a gs n = 1 - (1-a) prod_{i<n} exp(-G_i),
    G_i = sum of the i-th rate vector. *)
 From Coq Require Import Reals List Lra Lia.
-From MV Require Import Ops RInst Vec Hopper Cumulative HopperP CumulativeP.
+From MV Require Import Ops RInst Vec Cplx Mat Hop Hopper Cumulative HopperP CumulativeP Propagate Traj TrajP.
 Import ListNotations.
 Open Scope R_scope.
 
@@ -72,6 +72,21 @@ Proof.
   replace (1 - (1 - (1 - 0) * surv gs n)) with (surv gs n) by ring. apply surv_pos.
 Qed.
 Print Assumptions C09_survival_equals_poisson_fssh.
+
+(* the assembled cumulative pass (Model/Traj.step_cum, tied to TrajectoryCum runs by Run/RTraj.chkC):
+   an accepted hop conserves kinetic + active potential energy exactly and leaves the accumulation
+   at zero *)
+Theorem C09_full_step_accepted_hop : forall n m dt e0 e1 lam Cm (s s' : tstate (T:=R)) c c' hp t,
+  step_cum ROps n m dt e0 e1 lam Cm s c = (s', c', hp, Some (t, true)) ->
+  let f0 := nth (pact s) (eforce e0) [] in let f1 := nth (pact s) (eforce e1) [] in
+  let v1 := advance_velocity ROps m (pv s) f0 f1 dt in
+  Forall (fun mi => 0 < mi) m -> length v1 = length m -> length (tget (etau e1) (pact s) t) = length m ->
+  0 < vdot ROps (tget (etau e1) (pact s) t) (tget (etau e1) (pact s) t) ->
+  pact s' = t /\ kinetic ROps m (pv s') + vget ROps (diagE ROps n e1) t
+                 = kinetic ROps m v1 + vget ROps (diagE ROps n e1) (pact s)
+  /\ acc c' = 0.
+Proof. exact step_cum_hop_energy. Qed.
+Print Assumptions C09_full_step_accepted_hop.
 
 Example C09_witness : accumulate ROps 0 0 = 0 /\ (0 < 1)%nat.
 Proof. split; [rewrite accumulate_R, Ropp_0, exp_0; ring | lia]. Qed.
